@@ -1181,8 +1181,13 @@ func (e *MetaCDC) startReplicateDMLMsg(replicateCtx context.Context, entity *Rep
 		}
 		replicateMsgsFunc := func(replicateMsgs []*api.ReplicateMsg) error {
 			positionInfos := make(map[string]*UpdatePositionInfo)
+			var firstErr error
 			for _, replicateMsg := range replicateMsgs {
 				taskID := replicateMsg.TaskID
+				if !e.isRunningTask(taskID) {
+					// paused meanwhile (possibly by a failure earlier in this batch): nothing of it is written any more
+					continue
+				}
 				msgPack := replicateMsg.MsgPack
 				streamChannelName := replicateMsg.PChannelName
 				targetPChannel := msgPack.EndPositions[0].GetChannelName()
@@ -1198,7 +1203,10 @@ func (e *MetaCDC) startReplicateDMLMsg(replicateCtx context.Context, entity *Rep
 						zap.Error(err),
 					)
 					_ = e.pauseTaskWithReason(taskID, "fail to handle replicate message, err:"+err.Error(), []meta.TaskState{})
-					return err
+					if firstErr == nil {
+						firstErr = err
+					}
+					continue // the packs of the other tasks in this batch are still written
 				}
 				msgTime, _ := tsoutil.ParseHybridTs(msgPack.EndTs)
 				replicateMetric(taskID, streamChannelName, msgPack, metrics.OPTypeWrite)
@@ -1245,10 +1253,12 @@ func (e *MetaCDC) startReplicateDMLMsg(replicateCtx context.Context, entity *Rep
 				if err != nil {
 					log.Warn("fail to update the collection position", zap.Any("packs", replicateMsgs), zap.Error(err))
 					_ = e.pauseTaskWithReason(updatePositionInfo.taskID, "fail to update task position, err:"+err.Error(), []meta.TaskState{})
-					return err
+					if firstErr == nil {
+						firstErr = err
+					}
 				}
 			}
-			return nil
+			return firstErr
 		}
 
 		defer func() {
@@ -1274,8 +1284,9 @@ func (e *MetaCDC) startReplicateDMLMsg(replicateCtx context.Context, entity *Rep
 					return
 				}
 				if !e.isRunningTask(taskID) {
-					log.Warn("not running task", zap.Any("pack", replicateMsg), zap.String("task_id", taskID))
-					return
+					// this goroutine serves every task writing to the channel: drop the pack, keep serving the others
+					log.Warn("not running task", zap.String("task_id", taskID))
+					continue
 				}
 				msgPack := replicateMsg.MsgPack
 				if msgPack == nil {
@@ -1289,13 +1300,14 @@ func (e *MetaCDC) startReplicateDMLMsg(replicateCtx context.Context, entity *Rep
 						zap.String("task_id", taskID),
 					)
 					_ = e.pauseTaskWithReason(taskID, "fail to handle replicate message, invalid collection name or id", []meta.TaskState{})
-					return
+					continue
 				}
 				err := packer.Receive(replicateMsg, replicateMsgsFunc)
 				if err != nil {
-					log.Warn("fail to pack the replicate message", zap.Any("pack", replicateMsg), zap.Error(err))
-					_ = e.pauseTaskWithReason(taskID, "fail to pack replicate message, err:"+err.Error(), []meta.TaskState{})
-					return
+					// the task whose pack failed has been paused by the handler; the pack that triggered the flush may
+					// belong to another task
+					log.Warn("fail to pack the replicate message", zap.String("task_id", taskID), zap.Error(err))
+					continue
 				}
 			}
 		}
